@@ -298,7 +298,7 @@ def gen_conn(rng, ptype, authed_hint=False, chans=()):
         payload = struct.pack(">I", chanid) + (s_(b"data") if authed_hint else b"") + rng.choice([b"", s_(b"data"), s_(b"shell") + b"\x01",
                                                            struct.pack(">I", 1) + s_(b"ext"),
                                                            bytes(rng.randrange(256) for _ in range(rng.randrange(12)))])
-        if rng.random() < 0.1:
+        if not authed_hint and rng.random() < 0.1:      # (delivery to an existing channel is observed through its data)
             payload = payload[:rng.randrange(4)]
         return payload, Message(payload).get_int()
     payload = bytes(rng.randrange(256) for _ in range(rng.randrange(0, 16)))
